@@ -32,6 +32,7 @@ GRAPH_ATTR = [
     (r"^sanitize$", r".*", ["C16"]),
     (r"^(bypass|keep_only|keep_between)$", r".*", ["C18"]),
     (r"^(requires|add|update|remove)$", r".*", ["C19"]),
+    (r"^display$", r".*", ["C15", "C17", "C20"]),
     (r"^list$", r"^list-", ["C15", "C20"]),
 ]
 
